@@ -123,6 +123,7 @@ func (p *Program) buildFuncUnit(fn *ssa.Function) (ur *UnitResult) {
 	ur.frame = f
 	ur.HasSpec = f.contract != nil
 	if f.contract != nil {
+		g.nonBlockingUnit = f.contract.NonBlocking
 		g.reveals = map[string]bool{}
 		for _, n := range f.contract.Reveals {
 			g.reveals[n] = true
@@ -193,12 +194,13 @@ func (p *Program) buildFuncUnit(fn *ssa.Function) (ur *UnitResult) {
 	if f.contract != nil {
 		for _, cs := range f.contract.Callsites {
 			if f.callsiteHits[cs] == 0 {
-				panic(specErr("callsite clause for " + cs.Callee + " matched no call in " + fn.Name() + " (callee renamed or clause does not type-check anywhere)"))
+				panic(specErr("callsite clause for " + cs.Callee + " matched no call in " + fn.Name() + " (callee renamed or clause does not type-check anywhere: " + f.callsiteWhy[cs] + ")"))
 			}
 		}
 	}
 	// ground instances of quantified hypotheses (sequential: touches shared tables)
 	ur.Instances = g.instantiate(2)
+	eqDefiner = nil
 	return ur
 }
 
@@ -251,6 +253,7 @@ func (p *Program) buildLemmaUnit(l *Lemma) (ur *UnitResult) {
 		o.Clause = en.Text
 	}
 	ur.Instances = g.instantiate(2)
+	eqDefiner = nil
 	return ur
 }
 
